@@ -820,14 +820,6 @@ class AR(SR):
             f = dict(self.f)
         if rad.iszero():
             return K(F0)
-        # perfect-square monomial: sqrt(c*m^2) = sqrt(c)*|m|
-        if len(rad.t) == 1:
-            (m, cf), = rad.t.items()
-            sq = _isq(cf) if cf > 0 else None
-            if sq is not None and all(e % 2 == 0 for _, e in m):
-                root = AR(Poly(R, {tuple((v, e // 2) for v, e in m): sq}))
-                r = AR.mk(abs(root).n, f) if not isinstance(abs(root), K) else abs(root)
-                return _fixsign(r)
         cf, rp = rad.content_split()
         scale = F1
         if cf > 0:
